@@ -447,14 +447,33 @@ theorem segGetData_eq_ls (c : Cls) (tr : List Trans) (ls : LoadSt) (g : Seg) :
 
 /-! ### reads inside the file -/
 
+/-- the stream-size probe on a good stream, with or without a translation table: position at the
+    end, recorded size = length of the stream -/
+theorem streamSizeOf_good_ls (tr : List Trans) (st : IStream) (he : st.eof = false) (hf : st.fail = false) :
+    streamSizeOf tr st = ({ st with pos := st.data.length }, BitVec.ofNat 64 st.data.length) := by
+  unfold streamSizeOf
+  simp only [IStream.seekEnd_tellg st he hf, sec64_load_unseekable, hf]
+  cases tr.isEmpty <;> rfl
+
+/-- the stream-size probe in closed form, for every table and every stream state: failbit is left
+    as it was; a failed stream reports `SIZE_MAX`, any other the length of the stream -/
+theorem streamSizeOf_val_ls (tr : List Trans) (st : IStream) :
+    streamSizeOf tr st =
+      if st.fail then ({ st with eof := false, fail := true }, 18446744073709551615#64)
+      else ({ st with eof := false, pos := st.data.length }, BitVec.ofNat 64 st.data.length) := by
+  unfold streamSizeOf IStream.seekEnd IStream.tellg IStream.good sec64_load_unseekable
+  cases hf : st.fail <;> cases tr.isEmpty <;> simp [IStream.clear] <;> rfl
+
+/-- the probe does not depend on the translation table -/
+theorem streamSizeOf_tr_indep_ls (tr tr' : List Trans) (st : IStream) :
+    streamSizeOf tr st = streamSizeOf tr' st := by
+  rw [streamSizeOf_val_ls, streamSizeOf_val_ls]
+
 theorem hdrRead_inside (st : IStream) (he : st.eof = false) (hf : st.fail = false) (k n : Nat)
     (hk : k + n ≤ st.data.length) :
     hdrRead_ls [] st (Int.ofNat k) n =
       ({ st with pos := k + n, gcount := n }, slice st.data k n, BitVec.ofNat 64 st.data.length) := by
-  have h1 : streamSizeOf [] st = ({ st with pos := st.data.length }, BitVec.ofNat 64 st.data.length) := by
-    unfold streamSizeOf
-    simp only [IStream.seekEnd_tellg st he hf]
-    rfl
+  have h1 := streamSizeOf_good_ls [] st he hf
   have h2 : trApply [] (Int.ofNat k) = Int.ofNat k := rfl
   unfold hdrRead_ls
   rw [h1, h2]
@@ -1374,11 +1393,10 @@ theorem RangeRep.prefix {cont : Bytes} {tr : List Trans} {img : Bytes} {off n : 
     (h : RangeRep cont tr img off n) (m : Nat) (hm : m ≤ n) : RangeRep cont tr img off m :=
   ⟨h.1, by have := h.2.1; omega, by have := h.2.2.1; omega, slice_prefix_ls _ _ _ _ _ _ h.2.2.2 hm⟩
 
-/-- `stream_size` as `section_impl::load` / `segment_impl::load` compute it -/
-def ssOf (tr : List Trans) (clen : Nat) : BitVec 64 :=
-  match tr with
-  | [] => BitVec.ofNat 64 clen
-  | _ :: _ => u64max
+/-- `stream_size` as `section_impl::load` / `segment_impl::load` compute it on a good stream: the
+    length of the (container) stream, with or without a translation table (`tr` is kept as a
+    parameter for the callers) -/
+def ssOf (_tr : List Trans) (clen : Nat) : BitVec 64 := BitVec.ofNat 64 clen
 
 theorem hdrRead_rep (tr : List Trans) (st : IStream) (he : st.eof = false) (hf : st.fail = false)
     (img : Bytes) (k n : Nat) (hrep : RangeRep st.data tr img k n) :
@@ -1386,22 +1404,14 @@ theorem hdrRead_rep (tr : List Trans) (st : IStream) (he : st.eof = false) (hf :
       ({ st with pos := (trApply tr (Int.ofNat k)).toNat + n, gcount := n }, slice img k n,
        ssOf tr st.data.length) := by
   obtain ⟨h0, h1, h2, h3⟩ := hrep
-  cases tr with
-  | nil =>
-    have e : trApply [] (Int.ofNat k) = Int.ofNat k := rfl
-    have e2 : (Int.ofNat k).toNat = k := rfl
-    rw [e, e2] at h1 h3
-    rw [hdrRead_inside st he hf k n h1, e, h3]
-    rfl
-  | cons a l =>
-    have hss : streamSizeOf (a :: l) st = (st, u64max) := rfl
-    unfold hdrRead_ls
-    rw [hss]
-    simp only []
-    rw [IStream.seekg_ok_ls st hf _ h0 (by omega),
-      IStream.read_ok_ls { st with pos := (trApply (a :: l) (Int.ofNat k)).toNat, eof := false } rfl hf n h1]
-    simp only [h3, ssOf]
-    cases st; simp_all
+  unfold hdrRead_ls
+  rw [streamSizeOf_good_ls tr st he hf]
+  simp only []
+  rw [IStream.seekg_ok_ls { st with pos := st.data.length } hf _ h0
+      (by show (trApply tr (Int.ofNat k)).toNat ≤ st.data.length; omega),
+    IStream.read_ok_ls { st with pos := (trApply tr (Int.ofNat k)).toNat, eof := false } rfl hf n h1]
+  simp only [h3, ssOf]
+  cases st; simp_all
 
 theorem secOff_toNat (tr : List Trans) (offset : BitVec 64) (h63 : offset.toNat < 9223372036854775808)
     (h0 : 0 ≤ trApply tr (Int.ofNat offset.toNat))
@@ -1429,14 +1439,7 @@ theorem guards_rep (tr : List Trans) (clen : Nat) (toff size : BitVec 64) (h63 :
     BitVec.ult (ssOf tr clen) toff = false ∧
     (BitVec.ult (ssOf tr clen) size || BitVec.ult (ssOf tr clen - toff) size) = false ∧
     BitVec.ult (18446744073709551615#64 - BitVec.signExtend 64 1#32) size = false := by
-  have g := guards_inside toff size clen h63 h
-  cases tr with
-  | nil => exact g
-  | cons a l =>
-    refine ⟨ult_max_false toff, ?_, g.2.2⟩
-    show (BitVec.ult u64max size || BitVec.ult (u64max - toff) size) = false
-    rw [ult_max_false, ult_max_sub_false toff size (by omega)]
-    rfl
+  exact guards_inside toff size clen h63 h
 
 /-- the isolated data read at the translated position delivers the plain bytes -/
 theorem isolatedRead_rep (tr : List Trans) (st : IStream) (img : Bytes) (offset size : BitVec 64)
